@@ -14,6 +14,7 @@ import Driver.Ops.ParseComp
 import Driver.Ops.ParsePil
 import Driver.Ops.ParseSys
 import Driver.Ops.ParseFixed
+import Driver.Ops.Pickle
 /-! Registry of operation handlers: each model area adds one import above and one entry below. -/
 open Lean
 namespace Pepper.Driver
@@ -33,7 +34,8 @@ def handlers : List (String → Json → Option Json) := [
   ParseCompOps.handle?,
   ParsePilOps.handle?,
   ParseSysOps.handle?,
-  ParseFixedOps.handle?
+  ParseFixedOps.handle?,
+  PickleOps.handle?
 ]
 
 def handle (j : Json) : Json :=
